@@ -6,7 +6,7 @@ SR, SU = "channel::reliable::SendChannelReliable", "channel::unreliable::SendCha
 RR, RU = "channel::reliable::ReceiveChannelReliable", "channel::unreliable::ReceiveChannelUnreliable"
 PAIRS = [(SR, ["unacked_messages"]), (SU, ["unreliable_messages"]), (RR, ["messages", "slices"]), (RU, ["messages", "slices"])]
 GROWM = {"insert", "push_back", "push", "or_insert_with"}
-SHRINKM = {"remove", "pop_front", "pop_first", "pop"}
+SHRINKM = {"remove", "pop_front", "pop_first", "pop", "drain"}
 
 def counter_stores(t, adt):
     """stores to memory_usage_bytes as (site, kind, amount): the stored value is decomposed as `usage (+|-) a (+|-) b ..`, one entry per term
@@ -144,10 +144,18 @@ def rules(t):
 
     r = RuleResult("C09.d", "stale unreliable fragments: update() discards on every unreliable receive channel; 3 s predicate; both maps shrink with the same key", floor=1)
     u = t.fn("RenetClient::update")
-    dc = list(t.calls(r"discard_incomplete_old_slices$", u))
-    for c in dc:
-        r.site(c)
-        if not ("receive_unreliable_channels" in fmt(t.arg(c, 0)) and "values_mut" in fmt(t.arg(c, 0))): r.bad("recv", c, "discard not applied to every unreliable receive channel")
+    dc = []
+    for g in fn_and_closures(t, u):
+        for c in t.calls(r"discard_incomplete_old_slices$", g):
+            dc.append(c); r.site(c)
+            recv = fmt(t.arg(c, 0))
+            if "{closure" in g.path:
+                # `self.receive_unreliable_channels.values_mut().for_each(|channel| channel.discard_incomplete_old_slices(now))`: the receiver is the closure's
+                # parameter, i.e. an element of what the adaptor iterates over
+                tag = re.search(r"\{closure#\d+\}$", g.path).group(0)
+                feeds = [x for x in t.sites(owner_fn(t, g)) if x.node["k"] == "call" and any(tag in fmt(y) for y in t.args(x)[1:])]
+                recv = " ".join(fmt(t.arg(x, 0)) for x in feeds)
+            if not ("receive_unreliable_channels" in recv and ("values_mut" in recv or "iter_mut" in recv)): r.bad("recv", c, "discard not applied to every unreliable receive channel")
     if not dc: r.bad("missing", None, "update() does not discard stale fragments")
     d = t.fn("ReceiveChannelUnreliable::discard_incomplete_old_slices")
     cmpc = [x for x in t.sites(d) if x.node["k"] == "call" and "PartialOrd" in callee_name(x.node)]
@@ -190,7 +198,14 @@ def pair_paths(t):
         stores = list(counter_stores(t, adt))
         tag = adt.split("::")[-1]
         for cont in containers:
+            shr_sites = []
             for g in [g for g in t.effects(cont, SHRINKM) if tag in g.fn.path]:
+                if method_of(callee_name(g.node)) == "drain":
+                    # `for m in self.queue.drain(..)`: the elements leave one by one, at the iterator's `next`
+                    nx = [c_ for c_ in t.calls(r"::next$", g.fn) if "Drain" in callee_name(c_.node) + (c_.node.get("substs") or "") and "::drain(" in fmt(t.arg(c_, 0)) and cont in fmt(t.arg(c_, 0))]
+                    shr_sites += nx or [g]
+                else: shr_sites.append(g)
+            for g in shr_sites:
                 f = g.fn
                 subs = [s for s, k, a in stores if s.fn is f and k == "sub"]
                 r.site(g, f"shrink {cont}")
@@ -259,7 +274,9 @@ def slices_shape(t):
             r.site(c, "timestamp insert")
             key = t.arg(c, 1)
             have = [g for g in t.effects("slices", {"entry", "or_insert_with", "insert"}, f) if same(t.arg(g, 1), key) or fmt(t.arg(g, 1)) == fmt(key)]
-            if not any(f.dominates(g.bb, c.bb) for g in have): r.bad(f"{f.path}|timestamp-without-constructor", c, "a key is recorded in slices_last_received on a path where no reassembly entry exists in `slices` for it: discard_incomplete_old_slices would find no constructor (expect panic in update)")
+            absent_e, present_e = map_key_edges(t, f, "slices", lambda k_: same(k_, key) or fmt(strip(k_)) == fmt(strip(key)))
+            holds = must_fact(f, gen_points=[(g.bb, g.idx + 1) for g in have], gen_edges=present_e + [(g.bb, x_) for g in have for x_ in f.succ[g.bb] if g.node["k"] == "call" and g.node.get("target") == x_], kill_points=[pos(g) for g in t.effects("slices", {"remove"}, f)])
+            if not any(f.dominates(g.bb, c.bb) for g in have) and not holds(c.bb, c.idx): r.bad(f"{f.path}|timestamp-without-constructor", c, "a key is recorded in slices_last_received on a path where no reassembly entry exists in `slices` for it: discard_incomplete_old_slices would find no constructor (expect panic in update)")
         for c in t.effects("slices", {"remove"}, f):
             r.site(c, "constructor removed")
             key = fmt(t.arg(c, 1))
@@ -289,7 +306,7 @@ def release_implies_removal(t):
             r.site(s, "release")
             shr = [g for cont in containers for g in t.effects(cont, SHRINKM, f)]
             txt = fmt(a) if a is not None else ""
-            if any(m in txt for m in ("::remove(", "::pop_front(", "::pop_first(", "::pop(")) and any(c_ in txt for c_ in containers): pass      # the amount is read from the element being removed
+            if any(m in txt for m in ("::remove(", "::pop_front(", "::pop_first(", "::pop(", "::drain(")) and any(c_ in txt for c_ in containers): pass      # the amount is read from the element being removed
             else:
                 lp = innermost_loop(f, s.bb)
                 before = [g for g in shr if f.dominates(g.bb, s.bb) and (g.bb != s.bb or g.idx < s.idx) and (lp is None or g.bb in lp[1])]
